@@ -15,7 +15,7 @@ paths along a random master forest with trailing / intermediate / stand-alone pl
 (enum variants and field types, id→type, id→path, id→constructor per type, variant→id, variant→accessor, raw-tag arms) and compared with the declaration ∪ {Crc32 0xBF Binary (1-), Void 0xEC Binary (-), RawTag}. \
 Broken declarations are derived from a valid one by one systematic edit (duplicate id incl. the built-ins, unknown variant in a path, non-master parent of a leaf or of a master, path that does not extend the parent's path in three ways, (x-0) placeholder, adjacent placeholders, \
 missing #[id] / #[data_type], unknown data type, an element naming itself as its parent) and must be rejected (Err or panic of the macro body). Compiled engine: a batch of declarations goes through the real proc-macros with rustc; a generic driver checks every trait function for declared and probe ids and a write→read round trip. \
-Non-trivial: >= 4 distinct types, depth >= 3 and >= 1 placeholder (valid), any broken declaration; distinct by declaration text.";
+One valid declaration in six names the direct parent twice in a path (A/(-)/B/(-)/B). Non-trivial: >= 4 distinct types, depth >= 3 and >= 1 placeholder (valid), any broken declaration; distinct by declaration text.";
 
 pub const ASSUMPTIONS: &[&str] = &[
     "spans, generics and visibility variants are not checked",
